@@ -527,6 +527,43 @@ def main():
         "end Kio.Generated\n")
     if write_if_changed(os.path.join(GEN_DIR, "Bounds.lean"), bounds_src):
         changed.append("Bounds")
+    # ---- the two dispatch tables, observed entry by entry (C13) ------------------------------
+    from kio.serial import readers as _readers, writers as _writers
+    from kio.serial._parse import get_reader as _get_reader
+    from kio.serial._serialize import get_writer as _get_writer
+
+    def fn_name(fn, module):
+        # the public name under which the module exports this very object
+        for nm, obj in vars(module).items():
+            if obj is fn and not nm.startswith("_"):
+                return nm
+        return getattr(fn, "__name__", repr(fn))
+
+    ktypes = ["int8", "int16", "int32", "int64", "uint8", "uint16", "uint32", "uint64", "float64", "string", "bytes",
+              "records", "uuid", "bool", "error_code", "timedelta_i32", "timedelta_i64", "datetime_i64", "no_such_type"]
+
+    def rows(get, module):
+        out = []
+        for t in ktypes:
+            for fl in (False, True):
+                for op in (False, True):
+                    try:
+                        nm = f'(some "{fn_name(get(t, fl, op), module)}")'
+                    except NotImplementedError:
+                        nm = "none"
+                    except Exception as e:  # noqa: BLE001 - any other outcome is not what the model says
+                        nm = f'(some "!{type(e).__name__}")'
+                    out.append(f'  ⟨"{t}", {lean_bool(fl)}, {lean_bool(op)}, {nm}⟩')
+        return ",\n".join(out)
+
+    dispatch_src = (
+        "import Kio.Model.Dispatch\n/-! generated by harness/translate.py — do not edit -/\n"
+        "namespace Kio.Generated\nopen Kio\n"
+        "def readerRows : List DispatchRow := [\n" + rows(_get_reader, _readers) + "]\n"
+        "def writerRows : List DispatchRow := [\n" + rows(_get_writer, _writers) + "]\n"
+        "end Kio.Generated\n")
+    if write_if_changed(os.path.join(GEN_DIR, "Dispatch.lean"), dispatch_src):
+        changed.append("Dispatch")
     allc = (
         "".join(f"import Kio.Generated.Classes{s}\n" for s in range(SHARDS))
         + "/-! generated by harness/translate.py — do not edit -/\nnamespace Kio.Generated\nopen Kio\n"
